@@ -61,6 +61,7 @@ type Opts struct {
 	Fsize  int64  // >= 0: RLIMIT_FSIZE in bytes
 	Strace bool   // record system calls
 	Inject string // strace -e inject=... expression (implies Strace)
+	Env    []string // further environment variables
 }
 
 // Syscall is one parsed strace line.
@@ -114,7 +115,7 @@ func Run(o Opts) Result {
 	cmd := exec.Command(args[0], args[1:]...)
 	cmd.Dir = o.Dir
 	cmd.Stdin = strings.NewReader(o.Stdin)
-	cmd.Env = append(os.Environ(), "NO_COLOR=1", "HOME="+o.Dir)
+	cmd.Env = append(append(os.Environ(), "NO_COLOR=1", "HOME="+o.Dir), o.Env...)
 	var so, se bytes.Buffer
 	cmd.Stdout, cmd.Stderr = &so, &se
 	done := make(chan error, 1)
